@@ -514,7 +514,13 @@ func (rn *runner) simulate(in *input, op *operator.Operator, r *regionsim.Region
 	bad := func(key, f string, a ...interface{}) *violation {
 		key += path
 		if os.Getenv("VERIF_C08_SPLIT") != "" {
-			key += fmt.Sprintf("|%s|f%d|light=%v,force=%v", in.Kind, in.Env.Feature, in.Light, in.Force)
+			nonUp := 0
+			for _, st := range in.Env.States {
+				if st != sUp {
+					nonUp++
+				}
+			}
+			key += fmt.Sprintf("|%s|f%d|light=%v,force=%v|nonup=%d", in.Kind, in.Env.Feature, in.Light, in.Force, nonUp)
 		}
 		return &violation{Key: key, Msg: fmt.Sprintf(f, a...)}
 	}
@@ -1129,12 +1135,6 @@ func scopes() []*scope {
 			desc: "origins <=4 x targets <=4 of 5 stores x flags force / light / light+force; one origin peer pending (origins <=4, targets <=3)",
 			gen: concat(genSetPeers(mkEnvs(5, [][]int{allUp(5)}, l0, f3, r0), origins(5, 4, false), targets(5, 4, true), allFlags[1:], false),
 				genSetPeers(mkEnvs(5, [][]int{allUp(5)}, l0, f3, r0), origins(5, 4, false), targets(5, 3, true), noFlags, true))},
-		{name: "setpeers/5stores/2-non-up", tiers: "thorough",
-			desc: "5 stores, 3 feature levels: origins <=3 x targets <=3 x every assignment of 2 non-up stores (offline/down/evicted/reject-leader); x {plain, force} for all up and every single non-up store; origins <=4 x targets <=4 x {plain, force} for every single non-up store; label layout z1 z1 z2 z2 z3 with <=1 non-up store",
-			gen: concat(genSetPeers(mkEnvs(5, envStates(5, 2, kinds4, nil)[21:], l0, f3, r0), origins(5, 3, false), targets(5, 3, true), noFlags, false),
-				genSetPeers(mkEnvs(5, envStates(5, 1, kinds4, nil), l0, f3, r0), origins(5, 3, false), targets(5, 3, true), plainForce, false),
-				genSetPeers(mkEnvs(5, envStates(5, 1, kinds4, nil)[1:], l0, f3, r0), origins(5, 4, false), targets(5, 4, true), plainForce, false),
-				genSetPeers(mkEnvs(5, envStates(5, 1, kinds4, nil), []int{1}, f3, r0), origins(5, 3, false), targets(5, 3, true), noFlags, false))},
 		{name: "setpeers/5stores/placement-rules", tiers: "thorough",
 			desc: "placement rules on (2 voters in z1/z2, 1 learner in z3): origins <=3 x targets <=3, <=1 non-up store, {plain, force}",
 			gen:  genSetPeers(mkEnvs(5, envStates(5, 1, kinds4, nil), []int{1}, f3, []int{1}), origins(5, 3, false), targets(5, 3, true), plainForce, false)},
@@ -1149,6 +1149,13 @@ func scopes() []*scope {
 				genHelpers(mkEnvs(5, [][]int{allUp(5)}, l0, f3, r0), origins(5, 4, false), targets(5, 3, true), true, true),
 				genHelpers(mkEnvs(5, envStates(5, 1, kinds4, []int{0, 4}), l0, f3, r0), origins(5, 3, true), targets(5, 3, true), false, true),
 				genHelpers(mkEnvs(5, envStates(5, 1, kinds4, []int{0, 4}), l0, f3, r0), origins(5, 4, true), targets(5, 2, true), false, false))},
+		// the largest scope runs last and may use all the remaining time
+		{name: "setpeers/5stores/2-non-up", tiers: "thorough",
+			desc: "5 stores, 3 feature levels: origins <=3 x targets <=3 x every assignment of 2 non-up stores (offline/down/evicted/reject-leader); x {plain, force} for all up and every single non-up store; origins <=4 x targets <=4 x {plain, force} for every single non-up store; label layout z1 z1 z2 z2 z3 with <=1 non-up store",
+			gen: concat(genSetPeers(mkEnvs(5, envStates(5, 2, kinds4, nil)[21:], l0, f3, r0), origins(5, 3, false), targets(5, 3, true), noFlags, false),
+				genSetPeers(mkEnvs(5, envStates(5, 1, kinds4, nil), l0, f3, r0), origins(5, 3, false), targets(5, 3, true), plainForce, false),
+				genSetPeers(mkEnvs(5, envStates(5, 1, kinds4, nil)[1:], l0, f3, r0), origins(5, 4, false), targets(5, 4, true), plainForce, false),
+				genSetPeers(mkEnvs(5, envStates(5, 1, kinds4, nil), []int{1}, f3, r0), origins(5, 3, false), targets(5, 3, true), noFlags, false))},
 	}
 }
 
